@@ -327,12 +327,13 @@ def main(ctx, replay):
     evaluations = 0
     nontrivial = set()
     samples = []
+    traces = []     # (label, accepted list, python verdict) for the Gallina P_C09
     dist = {"wb_histories": 0, "wb_events": 0, "wb_kinds": {}, "wb_accepts": 0, "wb_rejects": 0, "wb_max_cache": 0,
             "wb_inherits": 0, "wb_nonmonotone": 0, "bb_scenarios": 0, "bb_requests": 0, "bb_reloads": 0, "bb_202": 0, "bb_401": 0, "bb_404": 0}
 
     # ---------------- white-box
     n_small = 24 if ctx.tier == "quick" else 200
-    bigs = [1200, 2400] if ctx.tier == "quick" else [1500, 3000, 3000, 5000, 2000, 4000, 2500, 3500]
+    bigs = [700, 1500] if ctx.tier == "quick" else [1500, 3000, 3000, 5000, 2000, 4000, 2500, 3500]
     hists = [wb_history(rng, False) for _ in range(n_small)] + [wb_history(rng, b) for b in bigs]
     rc, out, err = C.harness_run(info["hbin"], ["hmac-seq"], {"histories": [strip(h) for h in hists]})
     if rc != 0:
@@ -376,6 +377,7 @@ def main(ctx, replay):
                           "how_to_replay": "./check C09 --replay <this file>"})
                 break
         if h["_monotone"]:
+            traces.append(("wb%d" % hi, accepted, not check_trace(accepted, tols)))
             for (b, a, known) in check_trace(accepted, tols):
                 key = KNOWN_TOL_KEY if known else "replay-whitebox"
                 C.report(ctx, key, KNOWN_TOL_WHAT if known else
@@ -464,6 +466,7 @@ def main(ctx, replay):
                 if io["statuses"][0] == 202:
                     accepted.append({"i": si, "nonce": st["_r"]["nonce"].encode(), "signed": st["_r"]["ts"] * SEC, "now": st["now"], "tol": cur["tol"]})
         bad = check_trace(accepted, tols)
+        traces.append((s["name"], accepted, not bad))
         replay_obj = {"kind": "history", "case": strip(s), "observed": [{"op": x["op"], "status": x["status"], "statuses": x.get("statuses"),
                                                                         "queue": [x["total_before"], x["total_after"]]} for x in im["steps"]],
                       "expected_model_results": mres, "how_to_replay": "./check C09 --replay <this file>"}
@@ -482,7 +485,28 @@ def main(ctx, replay):
             samples.append({"scenario": s["name"], "steps": [{k: v for k, v in strip(st).items() if k not in ("wire", "wire_b")} for st in s["steps"]],
                             "statuses": [x.get("statuses") or x["status"] for x in im["steps"]]})
 
-    # ---------------- P_C09 (the Gallina predicate) on one recorded implementation trace, and its Python twin agree
+    # ---------------- the Gallina predicate P_C09 (Model/HmacHistory.v, meaning proved in C09_P_C09_spec) on every
+    # recorded implementation trace of acceptances; must give the verdict the Python twin gave above
+    ids = {}
+    rows = []
+    for label, acc, _ in traces:
+        rows.append(G.clist("{| ac_nonce := %d%%N; ac_signed := %s; ac_now := %s; ac_tol := %s |}" % (
+            ids.setdefault(a["nonce"], len(ids)), G.cz(a["signed"]), G.cz(a["now"]), G.cz(a["tol"])) for a in acc))
+    body = "\n".join(["From Coq Require Import ZArith List Bool NArith.", "From HK Require Import Model.HmacHistory.",
+                      "Import ListNotations.", "Open Scope Z_scope.",
+                      "Definition TR : list (list acc) := %s." % G.clist(rows),
+                      "Definition R := Eval vm_compute in map (fun t => if P_C09 t then 1 else 0) TR.", "Print R."]) + "\n"
+    prc, pout = C.coq_eval_cases(ctx, "c09pred", body)
+    prow = G.parse_rows(pout, "R") if prc == 0 else None
+    if prow is None or len(prow) != len(traces):
+        raise RuntimeError("P_C09 evaluation failed: " + pout[-1500:])
+    dist["P_C09_traces"] = len(traces)
+    dist["P_C09_false"] = sum(1 for (v,) in prow if v == 0)
+    for (label, acc, py_ok), (v,) in zip(traces, prow):
+        evaluations += 1
+        if bool(v) != py_ok:
+            C.report(ctx, "predicate-twin", "Gallina P_C09 says %s on trace %s, the Python twin says %s" % (bool(v), label, py_ok),
+                     {"kind": "history", "trace": strip(acc), "label": label})
     cov.update({
         "evaluations": evaluations,
         "distinct_nontrivial": len(nontrivial),
